@@ -97,6 +97,12 @@ class Concrete:
         self.order = []
         self.params = []
         self.eqs = []
+        # ghost/spec functions (e.g. prefix sums) keep the model's interpretation on a small domain
+        for d in model.decls():
+            if d.arity() == 1 and d.domain(0) == z3.IntSort() and d.range() == z3.IntSort() \
+                    and d.name() not in ("f2i",):
+                for q in range(-1, 10):
+                    self.eqs.append(d(q) == mval(model, d(q)))
         for name in ex.params:
             v = ex.arg_vals[name]
             if isinstance(v.v, Ptr):
@@ -145,6 +151,8 @@ class Concrete:
         ent = {"region": r, "length": n, "fields": {}, "ptrs": {}}
         self.regions[r.rid] = ent
         leaves = ex.leaf_fields(r.elem) if r.elem.kind == "struct" else [("", r.elem)]
+        if r.elem.kind == "ptr":
+            leaves = []      # an array of pointers: allocated zeroed (all NULL), contents opaque
         for (path, ft) in leaves:
             if ft.kind == "ptr":
                 p = ex.heap0.ptrs.get((r.rid, path))
